@@ -261,8 +261,11 @@ def prove_reply(src_root, ex: Explorer):
         install_env(it, ctx)
         mgr, emitted, sent, reqs, _ = mk_manager(it, ctx)
         t = ctx.fresh_int('reply_ticket')
+        # a reply may carry visible results, locked results only, or nothing at all: it is a result for its (live) request either way
+        shape = ['visible', 'locked-only', 'empty'][ctx.choose(3, 'reply-shape')]
         msg = new(it, 'protocol.messages', 'PeerSearchReply.Request', ticket=Sym(t, 'int'), username='bob',
-                  has_slots_free=True, avg_speed=1, queue_size=0, results=['item'], locked_results=None)
+                  has_slots_free=True, avg_speed=1, queue_size=0, results=['item'] if shape == 'visible' else [],
+                  locked_results=['locked item'] if shape == 'locked-only' else None)
         disc = []
         conn = Stub('connection', disconnect=Recorder('disconnect', fn=lambda it2, a, k: disc.append(k), is_async=True))
         # suspension points between the moment the registry is consulted and the moment the result is handed to the listeners
